@@ -89,17 +89,17 @@ def plan(ctx: Ctx):
                     lambda sc: 3 if sc["heavy"] else 1))
         b = X.gen_config(rng, "duckdb", "dedupe_only", True, 1)
         out.append((b, lambda sc: sc["needs_retain"] or sc["name"] in ("compare_two", "find_matches", "em"),
-                    lambda sc: 2))
+                    lambda sc: 1))
         c = X.gen_config(rng, "duckdb", "link_only", False, 2)
         out.append((c, lambda sc: sc["name"] in ("estimate_u", "em", "predict", "find_matches", "cluster", "cluster_best_links",
                                                  "m_pairwise", "labelling_tool", "unlinkables", "graph_metrics", "register_tf_lookup",
                                                  "U:em_no_pairs", "U:find_matches_missing_columns"),
-                    lambda sc: 6 if sc["heavy"] else 3))
+                    lambda sc: 4 if sc["heavy"] else 2))
         d = X.gen_config(rng, "sqlite", "dedupe_only", False, 3)
         out.append((d, lambda sc: sc["name"] in ("estimate_u", "em", "predict", "find_matches", "compare_two", "m_label",
                                                  "compute_tf_table", "register_tf_lookup", "register_predict", "query_sql",
                                                  "invalidate_cache", "U:em_no_pairs", "U:compare_two_missing_columns"),
-                    lambda sc: 2))
+                    lambda sc: 1))
     else:
         # every fault point of every scenario on every (backend, link type, retain) combination; the primary
         # combination twice with different data / parameters
@@ -187,8 +187,8 @@ def merge(ctx, R, res):
         g["statements"].update(fp["statements"])
         g["injected"] += fp["injected"]
         g["raised"] += fp["raised"]
-    for k in ("unmodelled_failure_points", "swallowed_faults", "later_results_compared"):
-        R.stats[k] += st[k]
+    for k in ("unmodelled_failure_points", "swallowed_faults", "later_results_compared", "skipped_later_reference_raises"):
+        R.stats[k] = R.stats.get(k, 0) + st.get(k, 0)
     R.stats["unmapped_statements"] += st["unmapped_statements"]
 
 
@@ -266,8 +266,8 @@ def run(ctx: Ctx):
     ctx.cov["fault_points"] = R.stats["fault_points"]
     ctx.cov["fault_points_total"] = {"injected": sum(v["injected"] for v in R.stats["fault_points"].values()),
                                      "raised": sum(v["raised"] for v in R.stats["fault_points"].values())}
-    for k in ("unmodelled_failure_points", "swallowed_faults", "later_results_compared"):
-        ctx.cov[k] = R.stats[k]
+    for k in ("unmodelled_failure_points", "swallowed_faults", "later_results_compared", "skipped_later_reference_raises"):
+        ctx.cov[k] = R.stats.get(k, 0)
     ctx.cov["unmapped_statements"] = R.stats["unmapped_statements"][:10]
     if R.cases:
         ctx.cov["samples"].append({"coq_case": R.cases[len(R.cases) // 2]["meta"]})
